@@ -4,6 +4,7 @@ import (
 	"fmt"
 	"math/big"
 	"math/rand/v2"
+	"sort"
 	"strings"
 
 	"github.com/cometbft/cometbft/abci/types"
@@ -921,6 +922,29 @@ func (g *TxGen) Next(height int64) []*GenTx {
 				}
 				tx := staking.NewReclaimEscrowTx(g.nonce(a), g.feeSure(2000), &staking.ReclaimEscrow{Account: v.Addr, Shares: sh})
 				add(g.finish(a, tx, "debond-storm"))
+			}
+		}
+	}
+	// Governance storm: two proposals submitted in the same block (they close on the same
+	// epoch boundary), and, while proposals are active, blocks in which every entity votes on
+	// every active proposal (turnout of each proposal close to the whole voting stake).
+	if g.rng.IntN(14) == 0 {
+		add(g.mkProposal())
+		add(g.mkProposal())
+	}
+	var active []uint64
+	for _, p := range g.view().Proposals {
+		if p.State == governance.StateActive {
+			active = append(active, p.ID)
+		}
+	}
+	if len(active) > 0 && g.rng.IntN(4) == 0 {
+		sort.Slice(active, func(i, j int) bool { return active[i] < active[j] })
+		for _, e := range g.h.Sc.Entities {
+			for _, id := range active {
+				vote := []governance.Vote{governance.VoteYes, governance.VoteYes, governance.VoteNo, governance.VoteAbstain}[g.rng.IntN(4)]
+				tx := governance.NewCastVoteTx(g.nonce(e.Account), g.feeSure(2000), &governance.ProposalVote{ID: id, Vote: vote})
+				add(g.finish(e.Account, tx, "vote-storm"))
 			}
 		}
 	}
